@@ -1,4 +1,16 @@
 import Driver.BitsStream
+import Driver.PerStream
+import Driver.DerStream
+import Driver.InttypeStream
+import Driver.TokStream
+import Driver.TagsStream
+import Driver.NamesStream
+import Driver.AttrStream
+import Driver.ParseStream
+import Driver.ResolveStream
+import Driver.ProtoStream
+import Driver.UperStream
+import Driver.FrontStream
 /-
   Line-protocol driver: one request per line on stdin, one answer per line on stdout.
   Imports model files only (no Mathlib/Batteries), so it links as a native executable.
@@ -8,6 +20,18 @@ open Asn1Verif
 def answer (line : String) : String :=
   match (line.trimAscii.toString.splitOn " ").filter (· ≠ "") with
   | "bits" :: args => Driver.BitsStream.handle args
+  | "per" :: args => Driver.PerStream.handle args
+  | "der" :: args => Driver.DerStream.handle args
+  | "inttype" :: args => Driver.InttypeStream.handle args
+  | "tok" :: args => Driver.TokStream.handle args
+  | "tags" :: args => Driver.TagsStream.handle args
+  | "names" :: args => Driver.NamesStream.handle args
+  | "attr" :: args => Driver.AttrStream.handle args
+  | "parse" :: args => Driver.ParseStream.handle args
+  | "resolve" :: args => Driver.ResolveStream.handle args
+  | "proto" :: args => Driver.ProtoStream.handle args
+  | "uper" :: args => Driver.UperStream.handle args
+  | "front" :: args => Driver.FrontStream.handle args
   | _ => "bad-op"
 
 partial def loop (h : IO.FS.Stream) (out : IO.FS.Stream) : IO Unit := do
